@@ -14,7 +14,7 @@ def prop(pid, **kw):
 
 prop('C04', bounded=['validation_d'],
      explanation='contract obligations on the validator closures, generated from the real AST and discharged by SMT')
-prop('C07', bounded=['roundtrip', 'textual'], explanation='contracts on check_encoding_chars, _split_msh, get_message_info, default resolvers')
+prop('C07', bounded=['delims'], explanation='contracts on check_encoding_chars, _split_msh, get_message_info, default resolvers')
 prop('C09', bounded=['histories'], explanation='functional postconditions of the ElementList mutators against the ordered-list model')
 prop('C10', bounded=['histories'], explanation='back-pointer and container-consistency postconditions of the attach path')
 prop('C11', bounded=['histories'], explanation='frame clauses of the read paths and the traversal (temporary parent) path')
